@@ -1,5 +1,6 @@
 import RedisVerif.Driver.C07
 import RedisVerif.Driver.C15
+import RedisVerif.Driver.C04
 
 open RedisVerif.Driver
 
@@ -15,4 +16,5 @@ def main (args : List String) : IO UInt32 := do
   match args with
   | ["C07"] => loop stdin stdout C07.step; return 0
   | ["C15"] => loop stdin stdout C15.step; return 0
+  | ["C04"] => loop stdin stdout C04.step; return 0
   | _ => IO.eprintln "usage: rvdriver <property-id> < ops"; return 2
